@@ -121,7 +121,13 @@ func (SlidingWindow) New(cfg Config) fiber.Handler {
 			// Lock entry
 			mux.Lock()
 			e = manager.get(key)
-			e.currHits--
+			// Only give the hit back to the window it was counted in
+			switch e.exp {
+			case ts + resetInSec:
+				e.currHits--
+			case ts + resetInSec + expiration:
+				e.prevHits--
+			}
 			remaining++
 			manager.set(key, e, cfg.Expiration)
 			// Unlock entry
